@@ -80,16 +80,16 @@ type art struct {
 }
 
 type row struct {
-	id    string
-	ul    uint32
-	ud    uint32
-	ub    uint8
-	uo    bool
-	uf    int32
-	s, t  brd
-	a     art
-	cdAct bool
-	pt    int
+	id   string
+	ul   uint32
+	ud   uint32
+	ub   uint8
+	uo   bool
+	uf   int32
+	s, t brd
+	a    art
+	cd   string // exp | act | max | neg | negact
+	pt   int
 }
 
 func b01(b bool) string {
@@ -107,14 +107,13 @@ func (b brd) tokens(p string) string {
 }
 
 func (r row) facts() string {
-	cd := "exp"
-	if r.cdAct {
-		cd = "act"
-	}
 	return fmt.Sprintf("id=%s ul=%x ud=%d ub=%d uo=%s uf=%d %s %s a0=%s af=%s an=%s ae=%s ao=%s am=%d ax=%s cd=%s pt=%d",
 		hexs(r.id), r.ul, r.ud, r.ub, b01(r.uo), r.uf, r.s.tokens("s"), r.t.tokens("t"),
-		b01(r.a.total0), b01(r.a.found), hexs(r.a.argName), hexs(r.a.entName), hexs(r.a.entOwner), r.a.mode, b01(r.a.exists), cd, r.pt)
+		b01(r.a.total0), b01(r.a.found), hexs(r.a.argName), hexs(r.a.entName), hexs(r.a.entOwner), r.a.mode, b01(r.a.exists), r.cd, r.pt)
 }
+
+// cdActive: the time part of the cool-down word lies in the future.
+func (r row) cdActive() bool { return r.cd == "act" || r.cd == "max" || r.cd == "negact" }
 
 // ---- token syntax (the Lean driver implements the same rules) ---------------------------------
 
@@ -363,10 +362,8 @@ func pRow(ts []string) (r row, ok bool) {
 		return
 	}
 	switch v {
-	case "act":
-		r.cdAct = true
-	case "exp":
-		r.cdAct = false
+	case "exp", "act", "max", "neg", "negact":
+		r.cd = v
 	default:
 		return r, false
 	}
@@ -568,12 +565,21 @@ func materialise(r row, word types.Time4, setWord bool) *ptttype.UserecRaw {
 	return u
 }
 
+// cdWord: the cool-down word the row describes.  exp: time part 0; act: now+600 s; max: the largest time part
+// (0x7FFFFFF0); neg / negact: as exp / act with bit 31 set (a negative int32; CooldownTimeOf masks the bit off).
 func cdWord(r row) types.Time4 {
-	w := types.Time4(0)
-	if r.cdAct {
-		w = (types.NowTS() + 600) & 0x7FFFFFF0
+	var w uint32
+	switch r.cd {
+	case "act":
+		w = uint32(types.NowTS()+600) & 0x7FFFFFF0
+	case "max":
+		w = 0x7FFFFFF0
+	case "neg":
+		w = 0x80000000
+	case "negact":
+		w = 0x80000000 | uint32(types.NowTS()+600)&0x7FFFFFF0
 	}
-	return w | types.Time4(r.pt)
+	return types.Time4(int32(w | uint32(r.pt)))
 }
 
 // ---- observation ---------------------------------------------------------------------------------
@@ -760,7 +766,7 @@ func clausesViolated(r row, b brd, edit bool) []string {
 		out = append(out, "verified")
 	}
 	// no active cool-down
-	if r.cdAct && !sysop {
+	if r.cdActive() && !sysop {
 		flood := false
 		for _, l := range [][2]int{{4000, 1}, {2000, 2}, {1000, 3}, {-1, 10}} {
 			if int(b.nuser) > l[0] && r.pt >= l[1] {
